@@ -92,6 +92,16 @@ def run_case(cs):
             nm = "added%d.bin" % g
             with open(os.path.join(root, nm), "wb") as f:
                 f.write(rng.randbytes(5))
+    tops = sorted({s.split("/")[0] for s in skel})
+    if tops and rng.random() < 0.25:
+        # the outer history is told to leave the folder of a nested history alone (proxies, caches): the pattern is
+        # recorded, the nested history is still part of the tree and its chain is still checked
+        ig = rng.choice(tops)
+        r = drive.run("create", [root, "-h", "md5", "-i", ig + rng.choice(["/", ""])])
+        if r.exit != 0:
+            cs.skip("setup-create-failed")
+            return
+        cs.count("scenarios_where_outer_history_ignores_folder_of_nested_history")
     unchained = set()
     if rng.random() < 0.2:
         # a run that died after its manifest was in place and before the chain file was replaced (orphan manifest), then
